@@ -43,6 +43,7 @@ type vpRedisHook struct {
 	gate  func(c *vpRedisCmd)               // called before execution, outside mu; may block
 	fault func(c *vpRedisCmd) *vpStoreFault // decide a fault for this (top-level) command
 	scripts map[string]string // sha -> kind (obtain/release), learnt from EVAL/SCRIPT LOAD
+	observer func(c *vpRedisCmd, reply []byte) // called under mu right after a top-level command executed (executed order)
 }
 
 func vpGoID() int64 {
@@ -192,6 +193,12 @@ func (h *vpRedisHook) hook(peer *server.Peer, cmd string, args ...string) bool {
 	}()
 	full := append([]string{cmd}, args...)
 	if f == nil {
+		if h.observer != nil {
+			raw := h.execDummy(peer, full)
+			peer.WriteRaw(string(raw))
+			h.observer(rec, raw)
+			return true
+		}
 		h.mr.Server().Dispatch(peer, full)
 		return true
 	}
